@@ -81,7 +81,7 @@ def run(ctx):
         P2 = dict(P)
         P2["design"] = []
         P2["gen"] = {"module": "Gen_Dedupe", "cfg": "Gen_sim.cfg", "simulate": {"num": 80, "depth": 200},
-                     "thorough_simulate": {"num": 3000, "depth": 200}, "timeout": 600, "thorough_timeout": 1700}
+                     "thorough_simulate": {"num": 800, "depth": 200}, "timeout": 600, "thorough_timeout": 1700}
         P2["n_random"] = (0, 0)
         pipeline.standard_check(ctx, P2)
     if not ctx.replay and not ctx.violations:
